@@ -128,7 +128,7 @@ fn fd_count() -> usize {
 pub fn run(thorough: bool) -> Vec<Part> {
     if small_build() {
         let mut part = Part::new("C12", "fd-alphabet-s", "model_checking");
-        part.assume("S-build, error-free piece alphabet; every read (including the read that hits EOF) additionally carries 0, 1 or 2 descriptors (read ends of fresh pipes), at most 4 pending; reference: descriptors are appended to a pending list at every read and handed, in arrival order, to the first request completed by that or a later read; at the end of every explored path all requests and the connection are dropped and every descriptor must be closed exactly once (fcntl on the number, harness write ends intact)");
+        part.assume("S-build, error-free piece alphabet; every read (including the read that hits EOF) additionally carries 0, 1 or 2 descriptors (read ends of fresh pipes), at most 4 pending; reads after which the application does not pop yet (it pops after a later read) are explored too; reference: descriptors are appended to a pending list at every read and handed, in arrival order, to the first request completed by that or a later read; at the end of every explored path all requests and the connection are dropped and every descriptor must be closed exactly once (fcntl on the number, harness write ends intact)");
         let mut cfg = Cfg::base("C12", "fd-alphabet", pieces(true), 40);
         cfg.offer_when_queued_le = if thorough { 24 } else { 20 };
         cfg.max_fds_per_read = 2;
@@ -143,12 +143,35 @@ pub fn run(thorough: bool) -> Vec<Part> {
         for (v, _) in &st.violations {
             part.violations.push(v.clone());
         }
+        // second graph: the application does not pop after every read (smaller alphabet)
+        let mut dcfg = Cfg::base("C12", "fd-alphabet-deferred-pops", pieces(false), 40);
+        dcfg.max_fds_per_read = if thorough { 2 } else { 1 };
+        dcfg.max_pending_fds = 3;
+        dcfg.eof = true;
+        dcfg.empty_reads = false;
+        dcfg.judge_errors = false;
+        dcfg.allow_defer = true;
+        dcfg.offer_when_queued_le = if thorough { 20 } else { 4 };
+        let st2 = bfs(&dcfg, &Limits { max_states: 4_000_000, max_secs: if thorough { 1500.0 } else { 60.0 }, ..Default::default() }, workers());
+        record(&mut part, "fd-alphabet-deferred-pops", &st2);
+        for (v, _) in &st2.violations {
+            part.violations.push(v.clone());
+        }
         // one read carrying the maximum of 253 descriptors
         let mut big = Cfg::base("C12", "253 descriptors on one read", vec![], 40);
         big.stream = Some(b"GET / HTTP/1.1\r\n\r\nGET /b HTTP/1.1\r\n\r\n".to_vec());
         big.max_fds_per_read = 253;
         big.max_pending_fds = 253;
-        for acts in [vec![Act::Read(10, 253), Act::Read(8, 0), Act::Read(20, 0)], vec![Act::Read(18, 253), Act::Read(20, 0)], vec![Act::Read(5, 0), Act::Eof(253)]] {
+        big.max_pending_fds = 1000;
+        for acts in [
+            vec![Act::Read(10, 253), Act::Read(8, 0), Act::Read(20, 0)],
+            vec![Act::Read(18, 253), Act::Read(20, 0)],
+            vec![Act::Read(5, 0), Act::Eof(253)],
+            // more than 253 descriptors for one request, spread over several reads
+            vec![Act::Read(10, 253), Act::Read(8, 1), Act::Read(20, 0)],
+            vec![Act::Read(5, 120), Act::Read(5, 120), Act::Read(8, 60), Act::Read(20, 0)],
+            vec![Act::Read(10, 253), Act::Read(4, 253), Act::Read(4, 253), Act::Read(20, 5)],
+        ] {
             let (v, _, _) = connx::run_schedule(&big, &acts);
             part.add("transitions", acts.len() as u64);
             part.add("traces_validated_against_impl", acts.len() as u64);
